@@ -21,7 +21,7 @@ RULE = ("cases are drawn per filter family from adversarial generators (markup c
         "run through Environment.call_filter and through a rendered template (sync; join/urlize/"
         "tojson also in an async environment). distinct = distinct (family, input, arguments) "
         "cases that are non-trivial: tojson value contains one of < > & '; xmlattr dict emits an "
-        "attribute whose value has a markup character, or has a key that must be rejected; urlize "
+        "attribute whose value or (accepted) key has a markup character, or has a key that must be rejected; urlize "
         "output contains >=1 anchor and input has a markup character; escape input has a markup "
         "character; Markup-subject filter case where the nonce'd argument demonstrably arrived "
         "(escaped or not) in the result")
@@ -30,7 +30,9 @@ LEVEL_TEXT = ("held on the generated executions only: K adversarial inputs per f
 ASSUMPTIONS = [
     "HTML attribute tokenisation follows the WHATWG tokenizer states (names not lower-cased, "
     "CR treated as whitespace); keys containing space, TAB, LF, CR, FF, '/', '>' or '=' must raise "
-    "ValueError when their item is emitted; other odd keys may be rejected or emitted intact",
+    "ValueError when their item is emitted; other odd keys may be rejected or emitted intact, except that "
+    "the markup characters < \" ' & of an accepted key must arrive escaped in the attribute name (the result "
+    "is a safe string: the tokenised name has no raw < > \" ' and html.unescape(name) == key)",
     "tojson inputs are JSON-native (str keys, lists, finite floats) so that json.loads(output) == input is the exact round trip",
     "a filter result that is a plain str (not Markup) is judged by its escaped form, because that is what autoescape outputs",
     "urlize input, xmlattr values and filter arguments are plain str (Markup data is the author's explicit marking)",
@@ -41,12 +43,14 @@ BUDGET_S = {"quick": 22, "thorough": 420}
 FLOORS = {
     "quick": {"evaluations": 12000, "distinct": 4000,
               "counters": {"tojson_roundtrips": 800, "xmlattr_tokenized": 500,
-                           "xmlattr_rejected_bad_key": 250, "urlize_anchors_parsed": 1200,
+                           "xmlattr_rejected_bad_key": 250, "xmlattr_names_with_markup_checked": 60,
+                           "urlize_anchors_parsed": 1200,
                            "escape_compared": 800, "msubj_arg_arrived_escaped": 1200,
                            "template_route": 4000}},
     "thorough": {"evaluations": 200000, "distinct": 60000,
                  "counters": {"tojson_roundtrips": 12000, "xmlattr_tokenized": 8000,
-                              "xmlattr_rejected_bad_key": 4000, "urlize_anchors_parsed": 20000,
+                              "xmlattr_rejected_bad_key": 4000, "xmlattr_names_with_markup_checked": 1000,
+                              "urlize_anchors_parsed": 20000,
                               "escape_compared": 12000, "msubj_arg_arrived_escaped": 20000,
                               "template_route": 60000}},
 }
@@ -260,6 +264,30 @@ def _xml_build(env, items):
     return d, expect
 
 
+def _xmlattr_names(ctx, out, expect, autospace):
+    """The result of xmlattr is a safe string, so an emitted attribute NAME is
+    subject to the same rule as a value: tokenised by the HTML tokenizer it
+    contains no raw markup character and html.unescape(name) is the key.
+    Called only after H.check_xmlattr accepted the output (it tokenises)."""
+    doc = ("<x" if autospace else "<x ") + out + ">"
+    try:
+        _, attrs, _, _ = H.tokenize_start_tag(doc)
+    except H.TokenizeError:
+        return None
+    for (name, _raw), (key, _text) in zip(attrs, expect):
+        if not any(c in key for c in H.MARKUP_CHARS + "&"):
+            continue
+        ctx.count("xmlattr_names_with_markup_checked")
+        raw = sorted({c for c in name if c in H.MARKUP_CHARS})
+        if raw:
+            names = {"<": "lt", ">": "gt", '"': "dquote", "'": "squote"}
+            return ("attr-name-raw:" + "+".join(names[c] for c in raw),
+                    f"attribute name {name!r} for key {key!r} carries raw {raw}: {out!r}")
+        if html.unescape(name) != key:
+            return "attr-name-unescape", f"attribute name {name!r} does not unescape to key {key!r}: {out!r}"
+    return None
+
+
 def check_xmlattr(ctx, E, case):
     autospace = case["autospace"]
     nontrivial = False
@@ -293,7 +321,13 @@ def check_xmlattr(ctx, E, case):
         ctx.count("xmlattr_tokenized")
         if bad:
             ctx.violation("xmlattr:" + bad[0], f"{label}: {bad[1][:400]}", case)
+        else:
+            bad = _xmlattr_names(ctx, out, expect, autospace)
+            if bad:
+                ctx.violation("xmlattr:" + bad[0], f"{label}: {bad[1][:400]}", case)
         if any(any(c in v for c in "<>\"'&") for _, v in expect):
+            nontrivial = True
+        if any(any(c in k for c in "<\"'&") for k, _ in expect):
             nontrivial = True
     if nontrivial:
         ctx.dist(("xmlattr", case["items"], autospace))
